@@ -140,6 +140,10 @@ func (r *Run) NotExhaustive(why string) {
 
 // Fail records a failing case.
 func (r *Run) Fail(f Fail) {
+	if len(f.Msg) > 3000 {
+		// long documents: the replay file has the whole case
+		f.Msg = f.Msg[:1500] + " [...] " + f.Msg[len(f.Msg)-1200:]
+	}
 	r.mu.Lock()
 	if len(r.fails[f.Class]) < 50 {
 		r.fails[f.Class] = append(r.fails[f.Class], f)
